@@ -89,6 +89,12 @@ CLAIMED["C08"] = {
     "note": "The 'simple' flag of annotated assignments is excepted by never parenthesising such targets; tab-after-space indentation is the documented stricter rule and is not a variant; quick tier rotates two variants per program.",
     "technique": "TLA+ layout renderer composed with the lexer machine model-checked by TLC (token-stream invariance); TLC-generated programs replayed under layout and parenthesis variants (tree invariance)",
 }
+CLAIMED["C09"] = {
+    "text": "Entry.tla specifies the layer above the parser proper: the class of a text (what the one parser answers in module and in expression mode), every public entry point (parse / parse_starts_at / parse_tokens in three modes, lex / lex_starts_at, the 8 typed and 55 per-node-kind Parse implementations with parse, parse_starts_at, parse_tokens, parse_without_path, the deprecated helpers: 148 entry points) and its answer as a descriptor. TLC checks for all 137 classes x 148 entry points that the call-chain mirror of the implementation returns the declared part of the one tree (ViewsAgree) and that no answer depends on the start offset once positions are taken relative to the text start (Translation); Variant=pinned states the one known deviation exactly (PinnedExact). TLC emits the declared answers per class; every input text (generated programs of nine sub-languages under three layouts, their single-token mutations, two-statement concatenations, blank and curated short texts, valid and invalid f-strings, snippets) is run through every entry point at offset 0 and at k in {1, 7, 400, 2^32-1-len} and each answer must be the descriptor resolved against parse(Module)/parse(Expression) at offset 0; a text whose class is not in the specification is a violation; the converse exceptions (expression statement rejected in expression mode) must be rejected by CPython's eval mode too; Mode::from_str names are checked.",
+    "design_ref": "DESIGN.md section 6 C09",
+    "note": "parse(Module)/parse(Expression) at offset 0 are the oracle here (their correctness is C01/C02); quick tier uses one rotating offset per text, thorough all four; known finding F-C09-1 (empty token stream has no position).",
+    "technique": "TLA+ specification of the entry-point layer (classes x entry points) model-checked by TLC (views agree, translation invariance); TLC-emitted answer table replayed against every public entry point of the real parser at several start offsets",
+}
 NOT_YET = {}
 
 def main():
